@@ -146,7 +146,7 @@ impl Property for C27Prop {
         }
     }
     fn rule(&self) -> &'static str {
-        "one run = 1..3 nodes (some pre-registered through insert_node_info without transports), 1..7 records per node with pairwise distinct hybrid timestamps drawn from a 4x3 grid (equal physical part / different logical part included) plus, by chance, one equal-timestamp twin; kinds: signed, signed without addresses, trusted with matching id, and per mode forged (other key), tampered timestamp, tampered addresses, another node's record, trusted with foreign id; delivered one at a time through AddressBook::insert_transport_info in timestamp order or PRNG order with duplicates; after every delivery the transports of the addressed node (after a byzantine delivery and at the end: of every node) are read back through AddressBook::node_info and compared with a last-write-wins register; non-trivial = >= 2 authentic records for one node or any byzantine record; distinct = distinct trace fingerprint"
+        "one run = 1..3 nodes (some pre-registered through insert_node_info without transports), 1..7 records per node with pairwise distinct hybrid timestamps drawn from a 4x3 grid (equal physical part / different logical part included) plus, by chance, one equal-timestamp twin; kinds: signed, signed without addresses, trusted with matching id, and per mode forged (other key), tampered timestamp, tampered addresses, another node's record, trusted with foreign id; delivered one at a time through AddressBook::insert_transport_info (records that must be rejected: half of the time wrapped into a NodeInfo through insert_node_info) in timestamp order or PRNG order with duplicates; after every delivery the transports of the addressed node (after a byzantine delivery and at the end: of every node) are read back through AddressBook::node_info and compared with a last-write-wins register; non-trivial = >= 2 authentic records for one node or any byzantine record; distinct = distinct trace fingerprint"
     }
     fn components_real(&self) -> Vec<&'static str> {
         vec![
@@ -362,7 +362,17 @@ impl Property for C27Prop {
                     }
                 }
 
-                let res = book.insert_transport_info(ids[r.node], r.info.clone()).await;
+                // A record that must be rejected takes, half of the time, the other door into the
+                // book: wrapped into a NodeInfo and handed to insert_node_info.
+                let via_node_info = expect.is_err() && ctx::chance("via_node_info", 1, 2);
+                let res = if via_node_info {
+                    ctx::fault("byzantine_record_via_insert_node_info");
+                    let mut ni = NodeInfo::new(ids[r.node]);
+                    ni.transports = Some(r.info.clone());
+                    book.insert_node_info(ni).await.map(|_| true)
+                } else {
+                    book.insert_transport_info(ids[r.node], r.info.clone()).await
+                };
                 let res_s = match &res {
                     Ok(b) => format!("Ok({b})"),
                     Err(AddressBookError::NodeInfo(e)) => format!("Err(NodeInfo: {e})"),
